@@ -689,4 +689,35 @@ theorem routeFold_empty_table (ext : Ext) (sync : Val) (S : List (Val × Val)) (
   rw [table_entries]
   exact routeFold_empty ext _ sync S acc
 
+/-! ## C13 at the level of the whole function -/
+
+/-- `fileV` with the sections passed through `f` before routing (`f = id` is `fileV` itself) -/
+def fileVon (ext : Ext) (c fp want : Val) (f : List (Val × Val) → List (Val × Val)) : M Val :=
+  (ext ".read" [fp] >>= fun t => ext ".splitlines" [t]) >>= fun lines =>
+  ext "._partition_lines_by_data_section" [c, lines] >>= fun secs =>
+  (allReqV secs >>= fun ok => if ok then .ok () else .error .valueError) >>= fun _ =>
+  (indexVal secs SONG >>= fun l => ext "Metadata.from_chart_lines" [l]) >>= fun md =>
+  (attrVal md "resolution" >>= fun r => indexVal secs SYNC >>= fun l => ext "SyncTrack.from_chart_lines" [r, l]) >>= fun sync =>
+  (indexVal secs EVENTS >>= fun l => attrVal sync "bpm_events" >>= fun b => ext "GlobalEventsTrack.from_chart_lines" [l, b]) >>= fun ge =>
+  entriesV secs >>= fun S =>
+  routeFold ext TABLE want sync (.dict .nil) (f S) >>= fun tracks =>
+  ext "()" [c, md, ge, sync, tracks]
+
+theorem fileV_eq_on (ext : Ext) (c fp want : Val) : fileV ext c fp want = fileVon ext c fp want id := rfl
+
+/-- **`Chart.from_file` with a (list or tuple) selection is `Chart.from_file` without one on the same file minus its unselected
+    instrument sections** — metadata, sync track and global events are read from the same sections either way, and nothing of an
+    unselected instrument section is ever looked at -/
+theorem fileV_select (ext : Ext) (c fp want : Val) (hw : ∀ pair, ∃ b, skipV want pair = .ok b) :
+    fileV ext c fp want = fileVon ext c fp .none (fun S => S.filter fun kv => !skippedB TABLE want kv.1) := by
+  unfold fileV fileVon
+  congr 1; funext lines
+  congr 1; funext secs
+  congr 1; funext _
+  congr 1; funext md
+  congr 1; funext sync
+  congr 1; funext ge
+  congr 1; funext S
+  rw [routeFold_unrestricted ext TABLE want sync hw S (.dict .nil)]
+
 end Chartparse.Tie
